@@ -3,8 +3,8 @@
 //! impl  : real `Memvid` on a tempdir file (shared history runner `mvh::hist`), observed after EVERY op:
 //!         `verif_state().vec_entries` (ids + blake3 of the f32 bytes), `frame_embedding(id)`,
 //!         `search_vec` with a frame's own embedding as the query, `toc.indexes.vec.vector_count`.
-//! model : drv_c14 = the Lean Core model with the crash recovery the source has (`Mem.crashCfg`; the
-//!         translator tools/gen/C14.py reads from `recover_wal` whether fixes/C14.diff is in) — full
+//! model : drv_c14 = the Lean Core model (crash recovery as the source has it: `Core.crash`, or `Mem.crashPre` when the
+//!         translator tools/gen/C14.py finds `recover_wal` without repair 5c6fd4b) — full
 //!         observation compared after every op — plus the representation simulator `VSim`
 //!         (MvModel/VecIdx.lean) for the scale scenario.
 //! oracle: (independent of the model; `RefModel` = what the acknowledged calls gave each frame id)
@@ -218,7 +218,7 @@ fn cput(len: usize, seed: u64, ts: i64, dim: usize, n: usize, parent: bool) -> O
 }
 fn doctor(vacuum: bool, rt: bool, rl: bool, rv: bool) -> Op { Op::Doctor { vacuum, rebuild_time: rt, rebuild_lex: rl, rebuild_vec: rv } }
 
-/// the witness of the defect fixes/C14.diff repairs (first in the corpus: every run reproduces it)
+/// the witness of the defect repaired by 5c6fd4b = fixes/C14.diff (first in the corpus)
 fn crash_witness() -> Vec<Op> { vec![eput(PayloadKind::Ascii, 40, 1, 100, 3), Op::Crash] }
 
 fn corpus(args: &Args) -> Vec<(String, Vec<Op>)> {
